@@ -1,6 +1,8 @@
 //! qv_compat: dump the REAL runtime type-test tables of compiled programs, in three configurations.
 //! stdin: one case per line: `"<source>" (mod "a/b" "<source>")*`   (`--merge N`: keep merging the
 //! tree-shaken programs into one Environment, reset after N programs).
+//! `--run`: instead of the tables, execute each configuration:
+//!   (ran (as-compiled <outcome>) (tree-shaken <outcome>) (merged-behind-<k> <outcome>))
 //! stdout per case, one line:
 //!   (compiled <cfg>*) | (parse-error) | (compile-error K) | (panic "file:line")
 //!   cfg ::= (cfg <name> <input> <tables> <struct>)      name: as-compiled | tree-shaken | merged-behind-<k>
@@ -11,7 +13,7 @@
 //!   tables ::= (tables (type (row <tag>*)*) (fparams (row <tag>*)*) (bparams (row <tag>*)*))
 //!              -- compute_type_compatibility / compute_param_compatibility, rows in index order,
 //!              -- tags sorted: i b r (t n) (f n) (bi n) (p n) (res n)
-//!   struct ::= (struct (tags "<key>"*)   -- a key starts with '!' when no tag of that image has a type entry (pat "<pattern key>" "<accepted tag key>"*)*)
+//!   struct ::= (struct (tags "<key>"*) (builds "<tuple key>"*)   -- a key starts with '!' when no tag of that image has a type entry (pat "<pattern key>" "<accepted tag key>"*)*)
 //!              -- the type table on structural images (ids erased), for the cross-configuration
 //!              -- invariance check: one `pat` per IsType operand
 use qvh::sexp::{self, Sexp};
@@ -297,6 +299,15 @@ fn dump_cfg(name: &str, bc: &Bytecode) -> String {
             }
         }
     }
+    // tuple shapes some function of this configuration constructs (operands of Instruction::Tuple)
+    let mut builds: BTreeSet<String> = BTreeSet::new();
+    for f in &bc.functions {
+        for i in &f.instructions {
+            if let Instruction::Tuple(t) = i {
+                builds.insert(tag_key(bc, &ConcreteType::Tuple(*t)));
+            }
+        }
+    }
     let mut pat_lines: BTreeSet<String> = BTreeSet::new();
     for p in pats {
         if let Some(set) = tt.get(p) {
@@ -309,7 +320,7 @@ fn dump_cfg(name: &str, bc: &Bytecode) -> String {
         }
     }
     format!(
-        "(cfg {} (input (entry {}) (reg (tuples {}) (types {})) (fns {}) (builtins {}) (resources {})) (tables (type {}) (fparams {}) (bparams {})) (struct (tags{}) {}))",
+        "(cfg {} (input (entry {}) (reg (tuples {}) (types {})) (fns {}) (builtins {}) (resources {})) (tables (type {}) (fparams {}) (bparams {})) (struct (tags{}) (builds{}) {}))",
         name,
         bc.entry.map(|e| e as i64).unwrap_or(-1),
         tuples.join(" "),
@@ -321,8 +332,38 @@ fn dump_cfg(name: &str, bc: &Bytecode) -> String {
         dump_rows(&fp),
         dump_rows(&bp),
         all_tags.iter().map(|k| format!(" {}", sexp::quote(k))).collect::<String>(),
+        builds.iter().map(|k| format!(" {}", sexp::quote(k))).collect::<String>(),
         pat_lines.into_iter().collect::<Vec<_>>().join(" ")
     )
+}
+
+/// `--run`: execute the program as compiled, tree-shaken and merged behind the earlier programs
+fn run_line(src: &str, modules: HashMap<Vec<String>, String>, merger: Option<&mut Merger>) -> String {
+    let src = src.to_string();
+    match qvh::guarded(move || qvh::compile_source(&src, modules)) {
+        Err(loc) => format!("(panic \"{}\")", loc),
+        Ok(Err(e)) => e.line(),
+        Ok(Ok(c)) => {
+            let full = c.program.to_bytecode(Some(c.entry));
+            let mut s = format!("(ran (as-compiled {})", qvh::run_bytecode(full).line());
+            match qvh::guarded(|| c.program.to_bytecode_optimized(c.entry)) {
+                Ok(b) => {
+                    s.push_str(&format!(" (tree-shaken {})", qvh::run_bytecode(b.clone()).line()));
+                    if let Some(m) = merger {
+                        let before = m.count;
+                        match qvh::guarded(|| m.merge(b)) {
+                            Ok(Ok(mb)) => s.push_str(&format!(" (merged-behind-{} {})", before, qvh::run_bytecode(mb).line())),
+                            Ok(Err(e)) => s.push_str(&format!(" (merge-error {})", sexp::quote(&e))),
+                            Err(loc) => s.push_str(&format!(" (panic \"{}\")", loc)),
+                        }
+                    }
+                }
+                Err(loc) => s.push_str(&format!(" (panic \"{}\")", loc)),
+            }
+            s.push(')');
+            s
+        }
+    }
 }
 
 fn compile_line(src: &str, modules: HashMap<Vec<String>, String>, merger: Option<&mut Merger>) -> String {
@@ -363,6 +404,7 @@ fn main() {
     let args: Vec<String> = std::env::args().collect();
     let merge_every: Option<usize> = args.iter().position(|a| a == "--merge").map(|i| args[i + 1].parse().unwrap());
     let mut merger = merge_every.map(|_| Merger::new());
+    let run_mode = args.iter().any(|a| a == "--run");
     for line in qvh::stdin_cases() {
         if let (Some(n), Some(m)) = (merge_every, merger.as_mut())
             && m.count >= n
@@ -378,6 +420,10 @@ fn main() {
                 modules.insert(path, l[2].atom().to_string());
             }
         }
-        println!("{}", compile_line(&src, modules, merger.as_mut()));
+        if run_mode {
+            println!("{}", run_line(&src, modules, merger.as_mut()));
+        } else {
+            println!("{}", compile_line(&src, modules, merger.as_mut()));
+        }
     }
 }
